@@ -245,8 +245,10 @@ func Solve(obls []*Obligation, dir string, timeoutS int, allSolvers bool, jobs i
 				r.Tried = append(r.Tried, fmt.Sprintf("%s:%s:%dms", solvers[0].name, st, ms))
 				if st == "unsat" || st == "sat" {
 					r.Status, r.Solver, r.Ms, r.Output = st, solvers[0].name, ms, out
-				} else if o.Soft {
-					r.Output, r.Ms = out, ms // informational probe only: no portfolio
+				} else if o.Soft || o.IsCover {
+					// vacuity probes (must-be-satisfiable queries): only `unsat` matters and a contradiction shows
+					// up quickly; an undecided probe is not worth a portfolio
+					r.Output, r.Ms = out, ms
 				} else {
 					r.Output, r.Ms = out, ms
 					var defs []solverDef
